@@ -55,6 +55,12 @@ def outcome(entry, text):
             from jaqalpaq.parser import parse_jaqal_string
 
             c = parse_jaqal_string(text, autoload_pulses=True, import_path=PULSE_DIR)
+        elif entry in ("parse-nopath", "parse-filepath"):
+            # the import directory does not exist / is a file: a module that cannot be found
+            from jaqalpaq.parser import parse_jaqal_string
+
+            ip = os.path.join(PULSE_DIR, "no_such_directory") if entry == "parse-nopath" else os.path.join(PULSE_DIR, "moda.py")
+            c = parse_jaqal_string(text, autoload_pulses=True, import_path=ip)
         elif entry == "parse-alt":
             from jaqalpaq.parser import parse_jaqal_string
 
